@@ -28,6 +28,7 @@ Inductive qapi :=
 Inductive cact :=
 | CLock (t : nat) (m : mtx) | CUnlock (t : nat) (m : mtx)
 | CAInc (t : nat) (a : atm) (v : Z) | CADec (t : nat) (a : atm) (v : Z) | CALoad (t : nat) (a : atm) (v : Z)
+| CRead (t : nat) (r : res)          (* an emptiness pre-check made without the mutex *)
 | CNotify (t : nat) | CCvBlock (t : nat) | CCvWake (t : nat) | CTimeout (t : nat)
 | CDisp (t : nat) (k : nat) (a : Z) | CTaken (t : nat) (k : nat) (a : Z) | CPeeked (t : nat) (k : nat) (a : Z)
 | CRes (t : nat) (b : bool) | CDone (t : nat)
@@ -73,7 +74,8 @@ Inductive instr :=
 | IWaitLoop (timed : bool)
 | IStart                         (* the thread has been created and waits to be scheduled for the first time *)
 | IRes                           (* log the call's boolean result *)
-| IDone.                         (* a call without result ends *)
+| IDone                          (* a call without result ends *)
+| IRead (r : res).               (* scheduling point: the unlocked read of queueList.empty() / freeList.empty() that follows *)
 
 (* ---------- field updates ---------- *)
 Definition sh_ql sh v := mkSh v (fl sh) (cec sh) (cnc sh) (oqm sh) (ofm sh) (nextid sh) (clog sh) (g_enq sh) (g_disp sh) (g_taken sh) (g_cleared sh) (g_settled sh) (g_putbacks sh).
@@ -101,7 +103,6 @@ Definition lo_slot lo v := mkLo (ltemp lo) (lkept lo) (lidle lo) (lreg lo) (lb l
 Definition lo_to lo v := mkLo (ltemp lo) (lkept lo) (lidle lo) (lreg lo) (lb lo) (lbe lo) (lres lo) (lslot lo) v (lev lo) (lshow lo) (lheld lo) (lsnap lo) (lseen lo) (ltaking lo).
 Definition lo_ev lo v := mkLo (ltemp lo) (lkept lo) (lidle lo) (lreg lo) (lb lo) (lbe lo) (lres lo) (lslot lo) (ltimedout lo) v (lshow lo) (lheld lo) (lsnap lo) (lseen lo) (ltaking lo).
 Definition lo_show lo v := mkLo (ltemp lo) (lkept lo) (lidle lo) (lreg lo) (lb lo) (lbe lo) (lres lo) (lslot lo) (ltimedout lo) (lev lo) v (lheld lo) (lsnap lo) (lseen lo) (ltaking lo).
-
 Definition lo_held lo v := mkLo (ltemp lo) (lkept lo) (lidle lo) (lreg lo) (lb lo) (lbe lo) (lres lo) (lslot lo) (ltimedout lo) (lev lo) (lshow lo) v (lsnap lo) (lseen lo) (ltaking lo).
 Definition lo_snap lo v := mkLo (ltemp lo) (lkept lo) (lidle lo) (lreg lo) (lb lo) (lbe lo) (lres lo) (lslot lo) (ltimedout lo) (lev lo) (lshow lo) (lheld lo) v (lseen lo) (ltaking lo).
 Definition lo_seen lo v := mkLo (ltemp lo) (lkept lo) (lidle lo) (lreg lo) (lb lo) (lbe lo) (lres lo) (lslot lo) (ltimedout lo) (lev lo) (lshow lo) (lheld lo) (lsnap lo) v (ltaking lo).
@@ -115,14 +116,15 @@ Definition nonempty {A} (l : list A) : bool := match l with [] => false | _ => t
 Definition eval_empty : list instr :=
   match GenQ.empty_queue_reads with
   | [0; 1] =>
-      [IIf [RQ] (fun sh _ => negb (nonempty (ql sh)))
+      [IRead RQ;
+       IIf [RQ] (fun sh _ => negb (nonempty (ql sh)))
            [ILocal [] (fun _ sh lo => (sh, lo_seen lo (negb (nonempty (ql sh)))));       (* ghost: the list test found it empty *)
             IALoad EC; ILocal [] (fun _ sh lo => (sh, lo_be lo (GenQ.empty_queue true (lreg lo))))]
            [ILocal [] (fun _ sh lo => (sh, lo_be (lo_seen lo false) false))]]
   | _ =>
       [IALoad EC;
        IIf [] (fun _ lo => GenQ.empty_queue true (lreg lo))
-           [ILocal [RQ] (fun _ sh lo => (sh, lo_be (lo_seen lo false) (negb (nonempty (ql sh)))))]
+           [IRead RQ; ILocal [RQ] (fun _ sh lo => (sh, lo_be (lo_seen lo false) (negb (nonempty (ql sh)))))]
            [ILocal [] (fun _ sh lo => (sh, lo_be (lo_seen lo false) false))]]
   end.
 
@@ -144,12 +146,62 @@ Fixpoint split_until (p : nat) (l : list cevt) : list cevt * list cevt :=
   | e :: r => if pverdict p e then ([], e :: r) else let '(a, b) := split_until p r in (e :: a, b)
   end.
 
+(* the block of processIf / processUntil that puts the events the predicate refused back at the front of the
+   queue.  `notifies`: it is followed by  if(doCanProcess()) notify_one()  (tie A reads this off the header; without
+   it an enqueue that looked at the queue while the events were held here has not notified, and a waiter sleeps on
+   a non-empty queue: P13) *)
+Definition putback (notifies : bool) : list instr :=
+  [ILock QM; ILocal [RQ] (fun _ sh lo => (sh_putback (sh_ql sh (ltemp lo ++ ql sh)), lo_temp lo [])); IUnlock QM]
+  ++ (if notifies then eval_can_process ++ [IIf [] (fun _ lo => lb lo) [INotify] []] else []).
+
+Definition processif_code (notifies : bool) (p : nat) : list instr :=
+      [IRead RQ;
+       IIf [RQ] (fun sh _ => nonempty (ql sh))
+           [IAInc EC; ILock QM;
+            ILocal [RQ] (fun _ sh lo => (sh_ql sh [], lo_temp lo (ql sh)));
+            IUnlock QM;
+            IIf [] (fun _ lo => nonempty (ltemp lo))
+                [ILocal [] (fun t sh lo =>
+                              let yes := filter (pverdict p) (ltemp lo) in
+                              let no := filter (fun e => negb (pverdict p e)) (ltemp lo) in
+                              (dispatch_all t sh yes, lo_idle (lo_temp lo no) (length yes)));
+                 IIf [] (fun _ lo => nonempty (ltemp lo)) (putback notifies) [];
+                 IIf [] (fun _ lo => negb (Nat.eqb (lidle lo) 0))
+                     [ILock FM; ILocal [RF] (fun _ sh lo => (sh_fl sh (fl sh + lidle lo), lo)); IUnlock FM;
+                      ILocal [] (fun _ sh lo => (sh, lo_res lo true))]
+                     [ILocal [] (fun _ sh lo => (sh, lo_res lo false))]]
+                [ILocal [] (fun _ sh lo => (sh, lo_res lo false))];
+            IADec EC]
+           [ILocal [] (fun _ sh lo => (sh, lo_res lo false))];
+       IRes].
+
+Definition processuntil_code (notifies : bool) (p : nat) : list instr :=
+      [IRead RQ;
+       IIf [RQ] (fun sh _ => nonempty (ql sh))
+           [IAInc EC; ILock QM;
+            ILocal [RQ] (fun _ sh lo => (sh_ql sh [], lo_temp lo (ql sh)));
+            IUnlock QM;
+            IIf [] (fun _ lo => nonempty (ltemp lo))
+                [ILocal [] (fun t sh lo =>
+                              let '(yes, no) := split_until p (ltemp lo) in
+                              (dispatch_all t sh yes, lo_idle (lo_temp lo no) (length yes)));
+                 IIf [] (fun _ lo => nonempty (ltemp lo)) (putback notifies) [];
+                 IIf [] (fun _ lo => negb (Nat.eqb (lidle lo) 0))
+                     [ILock FM; ILocal [RF] (fun _ sh lo => (sh_fl sh (fl sh + lidle lo), lo)); IUnlock FM;
+                      ILocal [] (fun _ sh lo => (sh, lo_res lo true))]
+                     [ILocal [] (fun _ sh lo => (sh, lo_res lo false))]]
+                [ILocal [] (fun _ sh lo => (sh, lo_res lo false))];
+            IADec EC]
+           [ILocal [] (fun _ sh lo => (sh, lo_res lo false))];
+       IRes].
+
 (* ---------- the API calls, transcribed from eventqueue.h ---------- *)
 
 Definition code_of (c : qapi) : list instr :=
   match c with
   | AEnqueue k a =>
       [ILocal [] (fun _ sh lo => let e := mkCE k a (nextid sh) in (sh_enq sh e, lo_ev (lo_slot lo false) (Some e)));
+       IRead RF;
        IIf [RF] (fun sh _ => Nat.ltb 0 (fl sh))
            [ILock FM;
             ILocal [RF] (fun _ sh lo => if Nat.ltb 0 (fl sh) then (sh_fl sh (pred (fl sh)), lo_slot lo true) else (sh, lo));
@@ -161,7 +213,8 @@ Definition code_of (c : qapi) : list instr :=
       ++ eval_can_process
       ++ [IIf [] (fun _ lo => lb lo) [INotify] []; IDone]
   | AProcess =>
-      [IIf [RQ] (fun sh _ => nonempty (ql sh))
+      [IRead RQ;
+       IIf [RQ] (fun sh _ => nonempty (ql sh))
            [IAInc EC; ILock QM;
             ILocal [RQ] (fun _ sh lo => (sh_ql sh [], lo_temp lo (ql sh)));
             IUnlock QM;
@@ -174,7 +227,8 @@ Definition code_of (c : qapi) : list instr :=
            [ILocal [] (fun _ sh lo => (sh, lo_res lo false))];
        IRes]
   | AProcessOne =>
-      [IIf [RQ] (fun sh _ => nonempty (ql sh))
+      [IRead RQ;
+       IIf [RQ] (fun sh _ => nonempty (ql sh))
            [IAInc EC; ILock QM;
             ILocal [RQ] (fun _ sh lo => match ql sh with e :: r => (sh_ql sh r, lo_temp lo [e]) | [] => (sh, lo_temp lo []) end);
             IUnlock QM;
@@ -186,47 +240,11 @@ Definition code_of (c : qapi) : list instr :=
             IADec EC]
            [ILocal [] (fun _ sh lo => (sh, lo_res lo false))];
        IRes]
-  | AProcessIf p =>
-      [IIf [RQ] (fun sh _ => nonempty (ql sh))
-           [IAInc EC; ILock QM;
-            ILocal [RQ] (fun _ sh lo => (sh_ql sh [], lo_temp lo (ql sh)));
-            IUnlock QM;
-            IIf [] (fun _ lo => nonempty (ltemp lo))
-                [ILocal [] (fun t sh lo =>
-                              let yes := filter (pverdict p) (ltemp lo) in
-                              let no := filter (fun e => negb (pverdict p e)) (ltemp lo) in
-                              (dispatch_all t sh yes, lo_idle (lo_temp lo no) (length yes)));
-                 IIf [] (fun _ lo => nonempty (ltemp lo))
-                     [ILock QM; ILocal [RQ] (fun _ sh lo => (sh_putback (sh_ql sh (ltemp lo ++ ql sh)), lo_temp lo [])); IUnlock QM] [];
-                 IIf [] (fun _ lo => negb (Nat.eqb (lidle lo) 0))
-                     [ILock FM; ILocal [RF] (fun _ sh lo => (sh_fl sh (fl sh + lidle lo), lo)); IUnlock FM;
-                      ILocal [] (fun _ sh lo => (sh, lo_res lo true))]
-                     [ILocal [] (fun _ sh lo => (sh, lo_res lo false))]]
-                [ILocal [] (fun _ sh lo => (sh, lo_res lo false))];
-            IADec EC]
-           [ILocal [] (fun _ sh lo => (sh, lo_res lo false))];
-       IRes]
-  | AProcessUntil p =>
-      [IIf [RQ] (fun sh _ => nonempty (ql sh))
-           [IAInc EC; ILock QM;
-            ILocal [RQ] (fun _ sh lo => (sh_ql sh [], lo_temp lo (ql sh)));
-            IUnlock QM;
-            IIf [] (fun _ lo => nonempty (ltemp lo))
-                [ILocal [] (fun t sh lo =>
-                              let '(yes, no) := split_until p (ltemp lo) in
-                              (dispatch_all t sh yes, lo_idle (lo_temp lo no) (length yes)));
-                 IIf [] (fun _ lo => nonempty (ltemp lo))
-                     [ILock QM; ILocal [RQ] (fun _ sh lo => (sh_putback (sh_ql sh (ltemp lo ++ ql sh)), lo_temp lo [])); IUnlock QM] [];
-                 IIf [] (fun _ lo => negb (Nat.eqb (lidle lo) 0))
-                     [ILock FM; ILocal [RF] (fun _ sh lo => (sh_fl sh (fl sh + lidle lo), lo)); IUnlock FM;
-                      ILocal [] (fun _ sh lo => (sh, lo_res lo true))]
-                     [ILocal [] (fun _ sh lo => (sh, lo_res lo false))]]
-                [ILocal [] (fun _ sh lo => (sh, lo_res lo false))];
-            IADec EC]
-           [ILocal [] (fun _ sh lo => (sh, lo_res lo false))];
-       IRes]
+  | AProcessIf p => processif_code GenQConc.processif_putback_notifies p
+  | AProcessUntil p => processuntil_code GenQConc.processuntil_putback_notifies p
   | ATake =>
-      [IIf [RQ] (fun sh _ => nonempty (ql sh))
+      [IRead RQ;
+       IIf [RQ] (fun sh _ => nonempty (ql sh))
            [ILock QM;
             ILocal [RQ] (fun _ sh lo => match ql sh with e :: r => (sh_ql sh r, lo_taking (lo_temp lo [e]) true) | [] => (sh, lo_temp lo []) end);
             IUnlock QM;
@@ -240,7 +258,8 @@ Definition code_of (c : qapi) : list instr :=
        ILocal [] (fun t sh lo => match lshow lo with Some e => (sh_log sh (CTaken t (cek e) (cea e)), lo) | None => (sh, lo) end);
        IRes]
   | APeek =>
-      [IIf [RQ] (fun sh _ => nonempty (ql sh))
+      [IRead RQ;
+       IIf [RQ] (fun sh _ => nonempty (ql sh))
            [ILock QM;
             ILocal [RQ] (fun t sh lo => match ql sh with
                                         | e :: _ => (sh, lo_show (lo_res lo true) (Some e))
@@ -251,7 +270,8 @@ Definition code_of (c : qapi) : list instr :=
        ILocal [] (fun t sh lo => match lshow lo with Some e => (sh_log sh (CPeeked t (cek e) (cea e)), lo) | None => (sh, lo) end);
        IRes]
   | AClear =>
-      [IIf [RQ] (fun sh _ => nonempty (ql sh))
+      [IRead RQ;
+       IIf [RQ] (fun sh _ => nonempty (ql sh))
            [ILock QM;
             ILocal [RQ] (fun _ sh lo => (sh_ql sh [], lo_taking (lo_temp lo (ql sh)) true));
             IUnlock QM;
@@ -292,7 +312,7 @@ Record thread := mkTh { code : list instr; calls : list qapi; lo : qlocals; stat
 Record config := mkCfg { shs : qshared; ths : list thread; sched : list nat; dead : bool }.
 
 Definition is_sync (i : instr) : bool :=
-  match i with ILock _ | IUnlock _ | IAInc _ | IADec _ | IALoad _ | INotify | IStart | ICvWait _ => true | _ => false end.
+  match i with ILock _ | IUnlock _ | IAInc _ | IADec _ | IALoad _ | INotify | IStart | ICvWait _ | IRead _ => true | _ => false end.
 
 (* run local code up to the next visible action (or park, or finish) *)
 Fixpoint advance (fuel : nat) (t : nat) (sh : qshared) (th : thread) : qshared * thread :=
@@ -386,6 +406,7 @@ Definition perform (t : nat) (cfg : config) : config :=
                       end in
                     (sh_log sh (CNotify t), th1, others)
                 | IStart => (sh, th1, ths cfg)
+                | IRead r => (sh_log sh (CRead t r), th1, ths cfg)
                 | ICvWait timed =>
                     (* atomically release queueListMutex and park; the thread is scheduled again only after a notify or a timeout *)
                     (sh_oqm (sh_log sh (CCvBlock t)) None, mkTh rest (calls th) (lo_to (lo th) false) (TParked timed), ths cfg)
@@ -453,4 +474,9 @@ Definition start_threads (progs : list (list qapi)) : list thread :=
 
 Definition qc_run_case (fuel : nat) (progs : list (list qapi)) (schedule : list nat) : list cact :=
   let cfg := run_sched fuel (mkCfg sh0 (start_threads progs) schedule false) in
+  rev (clog (shs cfg)) ++ (if dead cfg then [] else map (fun e => CDrained (cek e) (cea e)) (ql (shs cfg))).
+
+(* the same, for threads given as instruction lists (regression witnesses run shapes the header no longer has) *)
+Definition qc_run_code (fuel : nat) (codes : list (list instr)) (schedule : list nat) : list cact :=
+  let cfg := run_sched fuel (mkCfg sh0 (map (fun c => mkTh (IStart :: c) [] lo0 TRun) codes) schedule false) in
   rev (clog (shs cfg)) ++ (if dead cfg then [] else map (fun e => CDrained (cek e) (cea e)) (ql (shs cfg))).
